@@ -309,6 +309,28 @@ prop(
 )
 
 
+prop(
+    "C15", "exploration",
+    "The real pipeline assembled as in cmd/hidi (fake driver.Port -> midi.ProcessMidiEvents -> utils.DynamicFanOut -> consumers; emitters -> "
+    "ProcessMidiEvents -> fake port), channel capacities 0-8 each, 1-4 concurrent emitters of 0-300 tagged messages, 0-400 numbered input "
+    "messages, GOMAXPROCS in {1,2,4,16}, and a generated script of up to 14 harness-owned actions over 4 consumers: attach (plain reader, or a "
+    "real device.Device whose ProcessEvents is ended before it is detached - the manager's pattern), stop reading, resume, detach (after "
+    "0-8 ms of traffic piling up), let n more messages start; 1/4 of the cases feed the fan-out directly. Oracles: output port = per-emitter "
+    "exact order, exactly once, byte-for-byte; every consumer's sequence numbers strictly increasing and contiguous up to the last message "
+    "owed to it, containing every message whose send began after its SpawnOutput returned up to the one before the newest message any consumer "
+    "had seen when DespawnOutput was called (the whole stream for consumers kept to the end); DespawnOutput always returns - the negative "
+    "verdict is a stable blocked state in two goroutine dumps 1 s apart (delivery goroutine parked in chan send, caller parked on the mutex), "
+    "not a bare time-out; channels closed after removal. Non-trivial = >= 2 emitters with >= 1 consumer, or a detach of a consumer that had "
+    "stopped reading; distinct by case hash.",
+    [dict(test="TestC15", shards=16, checks_quick=150, checks_thorough=6000, shrinktime="10s", gomaxprocs=16, timeout_quick=600)],
+    level_text="Generated schedules of harness-owned actions against sequence-number oracles; interleavings inside the units' own goroutines "
+               "are sampled by the Go scheduler under several GOMAXPROCS values, not enumerated.",
+    level_note="Trusted: the harness consumers/feeder; cmd/hidi/manager.go itself needs evdev nodes and is represented by the same library calls "
+               "in the same order (SpawnOutput -> NewDevice -> ProcessEvents -> DespawnOutput). A lost wake-up needing one exact interleaving could be missed.",
+    technique="stateful property-based testing (rapid) of attach/detach/stall schedules with sequence-number and blocked-state oracles",
+)
+
+
 # Properties not (yet) claimed. Kept current by hand; every id of properties.jsonl is either in PROPS or here.
 _PENDING = "check not built yet in this round; planned as property-based test per DESIGN.md"
 NOT_APPLICABLE = [{"property_id": "C%02d" % i, "reason": _PENDING} for i in range(1, 21) if "C%02d" % i not in PROPS]
